@@ -185,14 +185,36 @@ def run (s : State) (sched : List Nat) : State := sched.foldl (fun s t => (step 
 
 def allDone (s : State) : Bool := s.reader == .done && s.closer == .done
 
-/-- constructor: `inotify_init`, `pipe`, then `inotify_add_watch` for the root and each sub-directory;
-    `failAt = some k`: the k-th kernel call (0 = inotify_init, 1.. = the add_watch calls) fails.
-    Returns the descriptors left open and whether the constructor raised. -/
-def ctor (nWatches : Nat) (failAt : Option Nat) : Nat × Bool :=
-  match failAt with
-  | some 0 => (0, true)                                  -- nothing was opened yet
-  | some k => if k ≤ nWatches then (0, true)             -- descriptors are released before the error propagates
-              else (3, false)
-  | none => (3, false)
+/-- the kernel calls of `Inotify.__init__`, in order: `inotify_init`, `os.pipe()` (the wake-up channel), then one
+    `inotify_add_watch` for the root and each sub-directory -/
+inductive CCall
+  | init | pipe | addWatch
+  deriving DecidableEq, Repr, Inhabited
+
+def ctorCalls (nWatches : Nat) : List CCall := [.init, .pipe] ++ List.replicate nWatches .addWatch
+
+/-- descriptors a successful call opens -/
+def CCall.opens : CCall → Nat
+  | .init => 1
+  | .pipe => 2
+  | .addWatch => 0
+
+/-- descriptors the constructor closes when the call fails, before the error propagates: nothing was opened when
+    `inotify_init` fails; the inotify descriptor when `pipe()` fails; all three (`_close_resources`) when a watch cannot
+    be added -/
+def CCall.closesOnFailure : CCall → Nat
+  | .init => 0
+  | .pipe => 1
+  | .addWatch => 3
+
+/-- the calls one after the other; `failAt = some k`: the k-th call (from 0) fails.  Returns the descriptors left open
+    and whether the constructor raised. -/
+def ctorRun : List CCall → Nat → Option Nat → Nat → Nat × Bool
+  | [], _, _, opened => (opened, false)
+  | c :: rest, pos, failAt, opened =>
+    if failAt = some pos then (opened - c.closesOnFailure, true)
+    else ctorRun rest (pos + 1) failAt (opened + c.opens)
+
+def ctor (nWatches : Nat) (failAt : Option Nat) : Nat × Bool := ctorRun (ctorCalls nWatches) 0 failAt 0
 
 end WD.Fd
